@@ -241,7 +241,7 @@ class Runner:
 
 
 def select(prop, tier, only):
-    hs = [h for h in meta.scan() if prop in h.props]
+    hs = [h for h in meta.scan() if prop in h.props or prop == "ALL"]
     if tier == "quick":
         hs = [h for h in hs if h.tier == "quick"]
     if only:
